@@ -284,6 +284,9 @@ def run(facts, rep, ctx):
     R2 = rep.rule("R06.2", "writer pads to the modulus the reader skips to (4), after the terminator", floor=2)
     R3 = rep.rule("R06.3", "label offset is taken before the message write; reader takes the key at the cursor before the message", floor=2)
     R4 = rep.rule("R06.4", "string readers do not sniff a BOM", floor=1)
+    R6 = rep.rule("R06.6", "archive adders under the text-archive writer (write_label for keys, write_string): payload stored on every non-error path, no payload-dependent refusal, no removal keyed on the payload", floor=2)
+    import annot
+    annot.contract(facts, rep, R6, ("write_label", "write_string"))
     ser = facts.body(TA + "::serialize")
     par = facts.body(TA + "::from_archive")
     if ser is None or par is None or not ser.pub or not par.pub:
